@@ -47,6 +47,11 @@ def strategy(tier):
         major=st.integers(0, 259), minor=st.integers(0, 1048575),
         # whether /sys/block/<name> exists; None = by naming convention
         whole=st.sampled_from([None, None, None, True, False]),
+        # /sys/block/<name>/queue/{hw_sector_size,logical_block_size,
+        # physical_block_size}: the device's own block sizes (4Kn disks, zram,
+        # nbd...).  diskstats sectors are 512 B whatever these say
+        # (Documentation/admin-guide/iostats.rst)
+        blk=st.sampled_from([512, 512, 4096, 4096, 2048, 65536]),
     ))
     return st.fixed_dictionaries(dict(
         nics=st.integers(0, 9).flatmap(lambda r: st.just([]) if r == 0 else
@@ -128,6 +133,13 @@ def expected_nic(n):
     return (tx[0], rx[0], tx[1], rx[1], rx[2], tx[2], rx[3], tx[3])
 
 
+def queue_attrs(k, d):
+    base = "/sys/block/" + d["name"].replace("/", "!") + "/queue/"
+    blk = d.get("blk", 512)
+    for nm in ("hw_sector_size", "logical_block_size", "physical_block_size", "minimum_io_size"):
+        k.set_file(base + nm, b"%d\n" % blk)
+
+
 def run_case(case):
     import psutil
 
@@ -149,6 +161,7 @@ def run_case(case):
         k.set_file("/proc/diskstats", render_diskstats(disks))
         for d in whole:
             k.mkdir("/sys/block/" + d["name"].replace("/", "!"))
+            queue_attrs(k, d)
     else:
         # only whole disks and (under the first one) the partitions
         listed = []
@@ -157,6 +170,7 @@ def run_case(case):
             k.set_file(base + "/stat",
                        (" ".join("%8d" % x for x in d["vals"]) + "\n").encode())
             k.set_file(base + "/queue/scheduler", b"none\n")
+            queue_attrs(k, d)
             listed.append(d)
         if whole:
             base = "/sys/block/" + whole[0]["name"].replace("/", "!")
@@ -199,6 +213,7 @@ def run_case(case):
                 if parts:
                     d_ = parts[0]
                     k.mkdir("/sys/block/" + d_["name"].replace("/", "!"))
+                    queue_attrs(k, d_)
                     late = (d_, psutil.disk_io_counters(perdisk=False, nowrap=False))
             # every disk counter restarts lower (device re-created) and the
             # documented cache_clear() is called: the default per-disk call
